@@ -1,0 +1,67 @@
+//go:build verif
+
+package bchutil
+
+// Contracts for the deductive verifier in /verif (comment-only; build tag verif).
+// Syntax: see /verif/DESIGN.md section 2.3. Spec functions live in /verif/spec.
+
+//@ func bchutil.polyMod
+//@   ensures result == u64(cashaddr.fold(1, v, len(v)) ^ 1)
+//@   modifies nothing
+//@   loop 1 invariant 0 <= $i && $i <= len(v)
+//@   loop 1 invariant c < (1 << 40) && u40(c) == cashaddr.fold(1, v, $i)
+//@   loop 1 decreases len(v) - $i
+
+//@ func bchutil.expandPrefix
+//@   ensures len(result) == len(prefix) + 1 && result[len(prefix)] == 0
+//@   ensures forall j :: 0 <= j && j < len(prefix) ==> result[j] == prefix[j] & 0x1f
+//@   ensures unique(result)
+//@   modifies nothing
+//@   loop 1 invariant 0 <= i && i <= len(prefix) && len(ret) == len(prefix) + 1
+//@   loop 1 invariant forall j :: 0 <= j && j < i ==> ret[j] == prefix[j] & 0x1f
+//@   loop 1 decreases len(prefix) - i
+
+//@ func bchutil.verifyChecksum
+//@   ensures result == (cashaddr.pm(prefix, len(prefix), payload, len(payload)) == 0)
+//@   modifies nothing
+//@   uses fold_is_foldc
+//@   opaque cashaddr.step
+
+//@ func bchutil.createChecksum
+//@   ensures len(result) == 8 && unique(result)
+//@   ensures forall j :: 0 <= j && j < 8 ==> result[j] == u8((u64(cashaddr.cksum(prefix, len(prefix), payload, len(payload))) >> u64(5 * (7 - j))) & 31)
+//@   modifies nothing
+//@   uses fold_is_foldc
+//@   opaque cashaddr.step
+//@   reveal cashaddr.fold, cashaddr.fold, cashaddr.fold, cashaddr.fold, cashaddr.fold, cashaddr.fold, cashaddr.fold, cashaddr.fold
+//@   assert after cat#1: len(enc) == len(prefix) + 1 + len(payload) && forall k :: 0 <= k && k < len(enc) ==> enc[k] == cashaddr.at(prefix, len(prefix), payload, k)
+//@   assert after cat#2: len(enc) == len(prefix) + 9 + len(payload) && forall k :: 0 <= k && k < len(enc) - 8 ==> enc[k] == cashaddr.at(prefix, len(prefix), payload, k)
+//@   assert after cat#2: forall k :: len(enc) - 8 <= k && k < len(enc) ==> enc[k] == 0
+//@   assert after polyMod#1: cashaddr.fold(1, enc, len(enc) - 8) == cashaddr.foldc(1, prefix, len(prefix), payload, len(enc) - 8)
+//@   assert after polyMod#1: mod == u64(cashaddr.cksum(prefix, len(prefix), payload, len(payload)))
+//@   loop 1 invariant 0 <= i && i <= 8 && len(ret) == 8
+//@   loop 1 invariant mod == u64(cashaddr.cksum(prefix, len(prefix), payload, len(payload)))
+//@   loop 1 invariant forall j :: 0 <= j && j < i ==> ret[j] == u8((mod >> u64(5 * (7 - j))) & 31)
+//@   loop 1 decreases 8 - i
+
+//@ func bchutil.DecodeCashAddress
+//@   ensures err == nil ==> len(result0) > 0 && len(result1) == len(str) - 1 - len(result0) - 8
+//@   ensures err == nil ==> str[len(result0)] == ':'
+//@   ensures err == nil ==> forall j :: 0 <= j && j < len(result0) ==> cashaddr.isLetter(str[j])
+//@   ensures err == nil ==> forall j :: 0 <= j && j < len(result0) ==> result0[j] == str[j] | 0x20
+//@   ensures err == nil ==> forall j :: 0 <= j && j < len(result1) + 8 ==> str[j+len(result0)+1] < 128 && result1[j] < 32 && result1[j] == u8(CharsetRev[str[j+len(result0)+1]])
+//@   ensures err == nil ==> cashaddr.pm(result0, len(result0), result1, len(result1) + 8) == 0
+//@   ensures err != nil ==> len(result0) == 0 && len(result1) == 0
+//@   modifies nothing
+//@   opaque cashaddr.step
+//@   loop 1 invariant 0 <= i && i <= len(str) && 0 <= prefixSize && (prefixSize == 0 || prefixSize < i)
+//@   loop 1 invariant prefixSize > 0 ==> str[prefixSize] == ':'
+//@   loop 1 invariant prefixSize == 0 ==> forall j :: 0 <= j && j < i ==> cashaddr.isLetter(str[j])
+//@   loop 1 invariant prefixSize > 0 ==> forall j :: 0 <= j && j < prefixSize ==> cashaddr.isLetter(str[j])
+//@   loop 1 decreases len(str) - i
+//@   loop 2 invariant 0 <= i && i <= prefixSize && len(prefix) == i
+//@   loop 2 invariant forall j :: 0 <= j && j < i ==> prefix[j] == str[j] | 0x20
+//@   loop 2 decreases prefixSize - i
+//@   loop 3 invariant 0 <= i && i <= valuesSize
+//@   loop 3 invariant forall j :: 0 <= j && j < i ==> str[j+prefixSize+1] < 128 && values[j] < 32 && values[j] == u8(CharsetRev[str[j+prefixSize+1]])
+//@   loop 3 decreases valuesSize - i
